@@ -1,5 +1,113 @@
+import OpusModel.RangeCoder
 import Driver.Util
-/- Suite stub — replaced by the owner of this suite. -/
+/-
+  Suite `rangecoder` (property C08).  Line protocol (harness/c08_rangecoder.c emits the same):
+
+    rangecoder seq <size> <fill> <tables> <ops>
+        size    buffer size handed to ec_enc_init (1..1275); the physical buffer has 16 guard
+                bytes before and after it (only the part from the buffer start on is modelled:
+                size+16 bytes), initial content of physical byte i (i from the buffer start)
+                = (fill + 37*i) % 256
+        tables  `-` or `/`-separated inverse-CDF tables, each a `,`-separated list of decimals
+        ops     `-` or `;`-separated operations
+                  e:fl:fh:ft   ec_encode            b:fl:fh:bits ec_encode_bin
+                  l:v:logp     ec_enc_bit_logp      i:s:t:ftb    ec_enc_icdf   (table index t)
+                  j:s:t:ftb    ec_enc_icdf16        u:v:ft       ec_enc_uint
+                  r:v:n        ec_enc_bits          p:v:n        ec_enc_patch_initial_bits
+                  s:size       ec_enc_shrink
+      answer:  <ok|err> E <st>|<st>|…  D <st> B <hex: size+16 bytes> S <storage> X <st>|<v>@<st>|…
+        E   encoder state after ec_enc_init and after every op,   D  after ec_enc_done,
+        B   physical buffer and trailing guard bytes after ec_enc_done, S final storage,
+        X   decoder (run on the first S bytes): state after ec_dec_init, then value@state per op
+        st = rng,val,offs,end_offs,end_window,nend_bits,nbits_total,rem,ext,error,tell,tell_frac
+
+    rangecoder tf <l> <rlo> <n> <low> <nbits>
+        ec_tell / ec_tell_frac for rng = (r << (l-16)) + (low ? 2^(l-16)-1 : 0), r = rlo..rlo+n-1,
+        nbits_total = nbits;   answer: `,`-separated `tell:tell_frac`
+    rangecoder ilog <v,v,…>     EC_ILOG of each value (> 0);  answer: `,`-separated
+-/
 namespace Driver.SuiteRangeCoder
-def handle (_ : List String) : String := "bad-op"
+open Opus Opus.RangeCoder Driver
+
+def stStr (c : Ctx) : String :=
+  s!"{c.rng},{c.val},{c.offs},{c.endOffs},{c.endWindow},{c.nendBits},{c.nbitsTotal},{c.rem},{c.ext},{c.error},{tell c},{tellFrac c}"
+
+def parseTables (s : String) : Option (List (List Nat)) :=
+  if s = "-" then some [] else (s.splitOn "/").mapM parseNatList
+
+def parseOp (tbls : List (List Nat)) (s : String) : Option Op :=
+  match s.splitOn ":" with
+  | [k, a, b, c] =>
+    match parseNat a, parseNat b, parseNat c with
+    | some a, some b, some c =>
+      if k = "e" then some (.encode a b c)
+      else if k = "b" then some (.encodeBin a b c)
+      else if k = "i" then (tbls[b]?).map (fun t => .icdf a t c)
+      else if k = "j" then (tbls[b]?).map (fun t => .icdf16 a t c)
+      else none
+    | _, _, _ => none
+  | [k, a, b] =>
+    match parseNat a, parseNat b with
+    | some a, some b =>
+      if k = "l" then some (.bitLogp a b)
+      else if k = "u" then some (.uint a b)
+      else if k = "r" then some (.bits a b)
+      else if k = "p" then some (.patchInitial a b)
+      else none
+    | _, _ => none
+  | [k, a] =>
+    match parseNat a with
+    | some a => if k = "s" then some (.shrink a) else none
+    | none => none
+  | _ => none
+
+def parseOps (tbls : List (List Nat)) (s : String) : Option (List Op) :=
+  if s = "-" then some [] else (s.splitOn ";").mapM (parseOp tbls)
+
+def encTrace (c : Enc) : List Op → List String → Enc × List String
+  | [], acc => (c, acc.reverse)
+  | op :: ops, acc => let c1 := encOp c op; encTrace c1 ops (stStr c1 :: acc)
+
+def decTrace (c : Dec) : List Op → List String → List String
+  | [], acc => acc.reverse
+  | op :: ops, acc =>
+    let (v, c1) := decOp c op
+    decTrace c1 ops (s!"{v}@{stStr c1}" :: acc)
+
+def runSeq (size fill : Nat) (ops : List Op) : String :=
+  let phys := (List.range (size + 16)).map (fun i => (fill + 37 * i) % 256)
+  let e0 := encInit phys size
+  let (e1, tr) := encTrace e0 ops [stStr e0]
+  let e2 := encDone e1
+  let d0 := decInit (e2.buf.take e2.storage) e2.storage
+  let dtr := decTrace d0 ops [stStr d0]
+  let tag := if e2.error = 0 then "ok" else "err"
+  s!"{tag} E {"|".intercalate tr} D {stStr e2} B {toHex e2.buf} S {e2.storage} X {"|".intercalate dtr}"
+
+def tfCtx (rng nbits : Nat) : Ctx :=
+  { (default : Ctx) with rng := rng, nbitsTotal := nbits }
+
+def handle : List String → String
+  | ["seq", size, fill, tbls, ops] =>
+    match parseNat size, parseNat fill, parseTables tbls with
+    | some size, some fill, some tbls =>
+      match parseOps tbls ops with
+      | some ops => runSeq size fill ops
+      | none => "bad-op"
+    | _, _, _ => "bad-op"
+  | ["tf", l, rlo, n, low, nbits] =>
+    match parseNat l, parseNat rlo, parseNat n, parseNat low, parseNat nbits with
+    | some l, some rlo, some n, some low, some nbits =>
+      if l < 16 ∨ l > 32 then "bad-op" else
+      ",".intercalate ((List.range n).map (fun i =>
+        let rng := (rlo + i) * 2 ^ (l - 16) + (if low ≠ 0 then 2 ^ (l - 16) - 1 else 0)
+        let c := tfCtx rng nbits
+        s!"{tell c}:{tellFrac c}"))
+    | _, _, _, _, _ => "bad-op"
+  | ["ilog", vs] =>
+    match parseNatList vs with
+    | some vs => natList (vs.map ilog)
+    | none => "bad-op"
+  | _ => "bad-op"
+
 end Driver.SuiteRangeCoder
